@@ -256,10 +256,11 @@ def _full_resync(ctx):
     exits = {(x, s) for x in lb for s in b.succs()[x] if s not in lb and b.blocks[s].term["k"] != "unreachable"}
     rets_in = [x for x in lb if b.blocks[x].term["k"] == "return"]
     ctx.check(len(exits) == 1 and not rets_in, "C07.D4", "single-loop-exit", site(b, jb), ok="the batch loop ends only when the stream is exhausted", bad="the batch loop has %d exits: a failing proxy can end the round early" % len(exits))
-    # the result is the accumulated `res`
-    res_l = b.local_by_name("res")
-    ok_exits, err_exits = _exits(b)
-    ctx.check(res_l is not None, "C07.D4", "errors-accumulated", site(b), ok="errors are accumulated in `res` and returned at the end", bad="no accumulated result variable")
+    # the result is an accumulator: the returned value is assigned inside the batch loop (an Err of a failed proxy) and the
+    # function returns it after the loop (identified by data flow, not by the variable's name)
+    ret_sl = du.slice_local(0, deep=False)
+    acc = [l for l in ret_sl.locals if b.local_name(l) and any(d[1] in lb for d in du.defs.get(l, []) if d[0] == "assign") and any(d[1] not in lb for d in du.defs.get(l, []) if d[0] == "assign")]
+    ctx.check(bool(acc), "C07.D4", "errors-accumulated", site(b), ok="errors are accumulated in a result variable (initialised before the loop, overwritten with Err inside it) and returned at the end", bad="no accumulated result variable")
 
 
 # the loop entry points take &self, so only interior mutability can carry state from one round to the next
